@@ -133,6 +133,21 @@ pub fn recover(plan_path: &str, out_path: &str) -> anyhow::Result<i32> {
             writeln!(w, "{}", e2)?;
         }
         writeln!(w, "{}", json!({"ev": "Crash", "run": run, "i": 0, "k": img["k"], "variant": img["variant"]}))?;
+        // the restart a deployment sees: the REAL executable starts on the directory, serves one request and is killed;
+        // what it did to the files at start-up is part of recovery, and the state is then read as usual
+        let mut binstart = json!({"started": "not-asked"});
+        if let (Some(path), Some(addr)) = (img["via_binary"].as_str(), img["listen"].as_str()) {
+            let spec = json!({"path": path, "listen": [addr], "args": ["--listen", addr, "--data-dir", img["dir"]]});
+            match crate::sock::start_binary(&spec) {
+                Ok(mut d) => {
+                    use crate::drivers::Driver;
+                    let (out, _) = d.get_snapshot(clients.first().copied().unwrap_or_else(Uuid::new_v4));
+                    binstart = json!({"started": "yes", "probe": format!("{out:?}").chars().take(80).collect::<String>()});
+                    d.stop();
+                }
+                Err(e) => binstart = json!({"started": "no", "error": format!("{e:#}")}),
+            }
+        }
         // open with the real code (schema set-up re-runs); any failure is an observation
         let opened = std::panic::catch_unwind(std::panic::AssertUnwindSafe(|| Runner::new(&job, std::path::Path::new("/nonexistent"))));
         let mut r = match opened {
@@ -208,7 +223,8 @@ pub fn recover(plan_path: &str, out_path: &str) -> anyhow::Result<i32> {
         .unwrap_or_else(|e| format!("integrity_check failed: {e}"));
         let ds = r.dump();
         r.last = ds.clone();
-        writeln!(w, "{}", json!({"ev": "Recovered", "run": run, "i": 0, "day": 0, "integrity": integrity, "st": Runner::st_json(&ds)}))?;
+        let integrity = if binstart["started"] == "no" { format!("the server executable did not start on the directory: {}", binstart["error"]) } else { integrity };
+        writeln!(w, "{}", json!({"ev": "Recovered", "run": run, "i": 0, "day": 0, "integrity": integrity, "st": Runner::st_json(&ds), "binstart": binstart}))?;
         // continuation: the store must behave
         let cont = plan["continuation"].as_array().cloned().unwrap_or_default();
         for (i, s) in cont.iter().enumerate() {
